@@ -109,7 +109,9 @@ impl Endpoint {
             }
             ResetToken(remote, token) => {
                 if let Some(old) = self.connections[ch].reset_token.replace((remote, token)) {
-                    self.index.connection_reset_tokens.remove(old.0, old.1);
+                    self.index
+                        .connection_reset_tokens
+                        .remove(old.0, old.1, ch);
                 }
                 if self.index.connection_reset_tokens.insert(remote, token, ch) {
                     warn!("duplicate reset token");
@@ -126,7 +128,7 @@ impl Endpoint {
             }
             Drained => {
                 if let Some(conn) = self.connections.try_remove(ch.0) {
-                    self.index.remove(&conn);
+                    self.index.remove(ch, &conn);
                 } else {
                     // This indicates a bug in downstream code, which could cause spurious
                     // connection loss instead of this error if the CID was (re)allocated prior to
@@ -1065,18 +1067,25 @@ impl ConnectionIndex {
     }
 
     /// Remove all references to a connection
-    fn remove(&mut self, conn: &ConnectionMeta) {
+    ///
+    /// Entries keyed by peer-influenced values (address tuples, reset tokens) may have been taken
+    /// over by a younger connection; those now belong to that connection and are left alone.
+    fn remove(&mut self, ch: ConnectionHandle, conn: &ConnectionMeta) {
         if conn.side.is_server() {
             self.remove_initial(conn.init_cid);
         }
         for cid in conn.loc_cids.values() {
             self.connection_ids.remove(cid);
         }
-        self.incoming_connection_remotes.remove(&conn.addresses);
-        self.outgoing_connection_remotes
-            .remove(&conn.addresses.remote);
+        if self.incoming_connection_remotes.get(&conn.addresses) == Some(&ch) {
+            self.incoming_connection_remotes.remove(&conn.addresses);
+        }
+        if self.outgoing_connection_remotes.get(&conn.addresses.remote) == Some(&ch) {
+            self.outgoing_connection_remotes
+                .remove(&conn.addresses.remote);
+        }
         if let Some((remote, token)) = conn.reset_token {
-            self.connection_reset_tokens.remove(remote, token);
+            self.connection_reset_tokens.remove(remote, token, ch);
         }
     }
 
@@ -1313,12 +1322,15 @@ impl ResetTokenTable {
             .is_some()
     }
 
-    fn remove(&mut self, remote: SocketAddr, token: ResetToken) {
+    /// Forget `token` for `remote`, unless another connection has registered it since
+    fn remove(&mut self, remote: SocketAddr, token: ResetToken, ch: ConnectionHandle) {
         use std::collections::hash_map::Entry;
         match self.0.entry(remote) {
             Entry::Vacant(_) => {}
             Entry::Occupied(mut e) => {
-                e.get_mut().remove(&token);
+                if e.get().get(&token) == Some(&ch) {
+                    e.get_mut().remove(&token);
+                }
                 if e.get().is_empty() {
                     e.remove_entry();
                 }
